@@ -589,6 +589,7 @@ pub fn fuzz_part() -> CustomPart {
                             .env_remove("CARGO_ENCODED_RUSTFLAGS")
                             .env("CARGO_NET_OFFLINE", "true")
                             .env("NV_SCRATCH_DIR", &tmp)
+                            .env("NV_FUZZ_ARTIFACTS", &arts)
                             .env("NV_ROOT", nv_c20::root())
                             .output();
                         let mut info = json!({"target": t, "runs_requested": runs});
